@@ -308,6 +308,8 @@ impl Check for C02Print {
             let texts: Vec<String> = vs.iter().map(|(v, sp)| serialise(v, sp)).collect();
             texts.join("\n")
         });
+        // one input in forty has a value whose printed row exceeds 64 KiB, followed by small ones
+        let values = prop_oneof![39 => values, 1 => arb_huge_value_stream().prop_map(|s| String::from_utf8_lossy(&s.bytes.0).to_string())];
         let num = || arb_dec().prop_map(|d| d.canonical());
         let strlit = || arb_string(CharSet::Bmp).prop_map(|s| canonical(&GVal::Str(s)));
         let expr = prop_oneof![
